@@ -1,7 +1,9 @@
 """C06 — categorical scores equal their 2x2 contingency-table definitions."""
 import itertools
 import math
+import random
 import numpy as np
+import common
 from common import xr, xvec, from_xr, from_xvec, num_close
 
 ID = "C06"
@@ -76,6 +78,14 @@ def gen_ops(tier, rng):
         b = rng.choice(BINS)
         t = rng.choice([-1.0, 0.0, 0.5, 1.0, 1.25, 2.0, 3.0, 4.0])
         u = t + rng.choice([0.0, 0.5, 1.0, 2.0])
+        rng3 = random.Random(rng.random())
+        if rng3.random() < 0.3:
+            # values a hair off an edge, on either side (273.149 against 273.15): they are not on the edge
+            for v in (obs, fcst):
+                for k in range(len(v)):
+                    if rng3.random() < 0.3:
+                        e = rng3.choice([t, u])
+                        v[k] = e * (1 + rng3.choice([-1, 1]) * 2.0 ** -20) if e != 0 else rng3.choice([-1, 1]) * 2.0 ** -30
         for name in rng.sample(NAMES, 6):
             yield "cont.pairs", "contscore %s %s %s %s %s %s" % (name, b, xr(t), xr(u), xvec(obs), xvec(fcst))
         yield "cont.abcd", "abcd %s %s %s %s %s" % (b, xr(t), xr(u), xvec(obs), xvec(fcst))
@@ -114,15 +124,19 @@ def impl(op):
             m = verif.metric.get(a[1])
             iv = _interval(a[2], from_xr(a[3]), from_xr(a[4]))
             s = np.zeros(1)
-            s[0] = m.compute_from_obs_fcst(np.array(from_xvec(a[5]), float), np.array(from_xvec(a[6]), float), iv)
-            return xr(s[0])
+            o_, f_ = np.array(from_xvec(a[5]), float), np.array(from_xvec(a[6]), float)
+            guard = common.Unchanged(o_, f_)
+            s[0] = m.compute_from_obs_fcst(o_, f_, iv)
+            return guard.tag(xr(s[0]))
         if a[0] == "abcd":
             m = verif.metric.get("ets")
             iv = _interval(a[1], from_xr(a[2]), from_xr(a[3]))
-            r = m._compute_abcd(np.array(from_xvec(a[4]), float), np.array(from_xvec(a[5]), float), iv)
+            o_, f_ = np.array(from_xvec(a[4]), float), np.array(from_xvec(a[5]), float)
+            guard = common.Unchanged(o_, f_)
+            r = m._compute_abcd(o_, f_, iv)
             if any(np.ma.is_masked(x) or (isinstance(x, float) and math.isnan(x)) for x in r):
-                return "none"
-            return " ".join(str(int(x)) for x in r)
+                return guard.tag("none")
+            return guard.tag(" ".join(str(int(x)) for x in r))
     raise ValueError(op)
 
 
@@ -180,6 +194,8 @@ def cmp(op, impl_out, model_out):
 
 def judge(op, impl_out, spec_out):
     a = op.split(" ")
+    if common.mutated_verdict(op, impl_out):
+        return common.mutated_verdict(op, impl_out)
     if impl_out.startswith("EXC:") or impl_out.startswith("EXIT:"):
         return ({"kind": "exception", "metric": a[1]}, "%s ended in %s" % (op[:200], impl_out))
     if a[0] in ("gencont", "contscore"):
